@@ -195,9 +195,15 @@ func fnGetRange(ctx *cmdContext, args map[string]any) (output respValue, err err
 	str, valid := ctx.dsc.getKey(keyName)
 	if valid == VALUE_WRONG_TYPE {
 		output.data = wrongTypeError
-	} else if valid == VALUE_EXISTS {
-		// convert negative indexes to positive
+	} else {
+		// a missing key is an empty string
 		n := len(str)
+		if start < 0 && end < 0 && start > end {
+			output.data = respBulkString("")
+			return
+		}
+
+		// convert negative indexes to positive
 		if start < 0 {
 			start = n + start
 		}
@@ -208,17 +214,19 @@ func fnGetRange(ctx *cmdContext, args map[string]any) (output respValue, err err
 		// enforce boundaries
 		if start < 0 {
 			start = 0
-		} else if start > n {
-			start = n
 		}
-
-		if end < start {
-			end = start - 1
-		} else if end >= n {
+		if end < 0 {
+			end = 0
+		}
+		if end >= n {
 			end = n - 1
 		}
 
-		output.data = respBulkString(str[start : end+1])
+		if start > end || n == 0 {
+			output.data = respBulkString("")
+		} else {
+			output.data = respBulkString(str[start : end+1])
+		}
 	}
 
 	return
